@@ -208,7 +208,9 @@ class CDF(keras.layers.Layer):
 
   def call(self, inputs):
     """Standard Keras call() method."""
-    input_dim = int(inputs.shape[-1])
+    # Number of input dimensions the kernel was built for. `inputs` may also be
+    # of shape `(batch_size, 1)`, in which case it is broadcast to all of them.
+    input_dim = int(self.kernel.shape[1])
     # We add new axes to enable broadcasting.
     x = inputs[..., tf.newaxis, tf.newaxis]
 
